@@ -640,11 +640,33 @@ class Analysis:
                 if rng is not None and rng[1] is not None:
                     cs.no_effects = True
                     return ("I", rng[1] - rng[0])
-        if fn == "core::cmp::min":
+        if fn == "core::cmp::min" or (fn == "core::cmp::Ord::min" and res.startswith("<usize as")) or fn == "core::num::<impl usize>::min":
             a, b = self.as_poly(args[0]), self.as_poly(args[1])
             if a is not None and b is not None:
                 from .poly import mk_min
+                cs.no_effects = True
                 return ("I", mk_min(a, b))
+        if fn == "core::cmp::max" or (fn == "core::cmp::Ord::max" and res.startswith("<usize as")):
+            a, b = self.as_poly(args[0]), self.as_poly(args[1])
+            if a is not None and b is not None:
+                from .poly import mk_min
+                cs.no_effects = True
+                return ("I", a + b - mk_min(a, b))
+        if fn == "core::num::<impl usize>::saturating_sub" and len(args) == 2:
+            a, b = self.as_poly(args[0]), self.as_poly(args[1])
+            if a is not None and b is not None:
+                from .poly import mk_min
+                cs.no_effects = True
+                return ("I", a - mk_min(a, b))  # max(a - b, 0)
+        if fn == "core::num::<impl usize>::saturating_add" and len(args) == 2:
+            a, b = self.as_poly(args[0]), self.as_poly(args[1])
+            if a is not None and b is not None:
+                from .poly import mk_min
+                cs.no_effects = True
+                return ("I", mk_min(a + b, Poly.atom(("umax",))))  # min(a + b, usize::MAX); every usize quantity is <= umax (poly axiom)
+        if fn in ("core::ptr::from_ref", "core::ptr::from_mut") and args and args[0][0] == "P":
+            cs.no_effects = True
+            return args[0]
         if fn == "core::mem::size_of":
             return ("I", te.size(targs[0]))
         if fn == "core::mem::needs_drop":
@@ -707,6 +729,7 @@ class Analysis:
         "core::slice::<impl [T]>::", "core::mem::size_of", "core::mem::needs_drop", "core::cmp::min",
         "core::ptr::const_ptr::", "core::ptr::mut_ptr::", "core::slice::from_raw_parts", "core::ptr::slice_from_raw_parts",
         "core::mem::ManuallyDrop::<T>::new", "core::mem::MaybeUninit::<T>::as_", "core::mem::MaybeUninit::<T>::uninit",
+        "core::ptr::from_ref", "core::ptr::from_mut", "core::cmp::max", "core::num::<impl usize>::saturating_", "core::num::<impl usize>::min",
         "core::option::Option::<T>::is_", "core::fmt::Arguments", "core::fmt::rt::Argument", "core::panicking::",
         "core::hint::unreachable_unchecked", "core::alloc::Layout::new", "core::ptr::NonNull::<T>::dangling",
         "core::ptr::NonNull::<T>::as_ptr", "core::ptr::read", "core::iter::Iterator::enumerate", "core::iter::Iterator::zip",
